@@ -26,7 +26,7 @@ def Allowed (r : R Result) : Prop :=
 
 /-- `parser.parse` on an already lexed text -/
 theorem parseResult_total (cls : Char → CClass) (info : Info) (hinfo : info.WF) (o : Opts)
-    (tznames : List Token) (tzi : TzInfos) (htz : tzi.NoBad) (hstr : tzi.StringsValid) (dflt : DT) (l : List Token) :
+    (tznames : List Token) (tzi : TzInfos) (htz : tzi.NoBad) (dflt : DT) (l : List Token) :
     Allowed (parseResult cls info o tznames tzi dflt l) := by
   unfold parseResult
   obtain ⟨r, hr, hwd⟩ := parseTokens_ok cls info hinfo o l
@@ -48,41 +48,49 @@ theorem parseResult_total (cls : Char → CClass) (info : Info) (hinfo : info.WF
         dsimp only [pure, Except.pure]
         split
         · exact Or.inl ⟨_, rfl⟩
-        · have ht := buildTzaware_kinds tznames tzi htz hstr res
+        · have ht := buildTzaware_kinds tznames tzi htz res
           cases htz' : buildTzaware tznames tzi res with
           | error e =>
-            have := ht e htz'
-            subst this
-            exact Or.inr (Or.inr rfl)
+            rcases ht e htz' with rfl | rfl
+            · exact Or.inr (Or.inl rfl)           -- ValueError of `_build_tzaware` is wrapped as ParserError
+            · exact Or.inr (Or.inr rfl)
           | ok z => exact Or.inl ⟨_, rfl⟩
 
 /-- **C14 (exception totality)** — for every character classification `cls` (Python's Unicode one in
     particular), every `parserinfo` whose weekday table maps into 0..6, every option combination, every
-    `tzinfos` whose values are tzinfo / TZ string / int / None (`NoBad`: anything else is the designed TypeError)
-    **and whose TZ-string values are valid** (`StringsValid`: `tz.tzstr` accepts them — C08's model of the TZ-string
-    parser returns a zone), every default and EVERY string, the model of `parser.parse` returns a value or raises
-    `ParserError` or `OverflowError`: nothing else.
-    The hypothesis "TZ-string values are valid" is NEEDED: `parse_bad_tzstring_escapes` below.  What the theorem
+    `tzinfos` whose values are tzinfo / TZ string / int / None or a callable returning those or raising ValueError
+    (`NoBad`: a value of any other type is the designed TypeError) — **malformed TZ strings included** —, every default
+    and EVERY string, the model of `parser.parse` returns a value or raises `ParserError` or `OverflowError`: nothing else.
+    No hypothesis on the TZ strings is needed since /repo 950345d wraps `_build_tzaware` (`tz.tzstr`'s ValueError becomes
+    ParserError; `tzstr_kinds`: C08's model of `tz.tzstr` raises only ValueError or OverflowError).  What the theorem
     covers ends where `parse` (the model) ends: the result descriptor.  `_assign_tzname`'s calls of `tzname()` on the
-    zone object are outside it; for a TZ string they are `PM.strNames` (month 13 passes the constructor and raises at
-    that point), for a tzinfo object or a callable they are the caller's code. -/
+    zone object are outside it; for a TZ string they are `PM.strNames` (month 13 passes the constructor and raises
+    ValueError at that point — inside the same `try`, so ParserError as well), for a tzinfo object they are the caller's. -/
 theorem parse_total (cls : Char → CClass) (info : Info) (hinfo : info.WF) (o : Opts)
-    (tznames : List Token) (tzi : TzInfos) (htz : tzi.NoBad) (hstr : tzi.StringsValid) (dflt : DT) (s : List Char) :
+    (tznames : List Token) (tzi : TzInfos) (htz : tzi.NoBad) (dflt : DT) (s : List Char) :
     Allowed (parse cls info o tznames tzi dflt s) :=
-  parseResult_total cls info hinfo o tznames tzi htz hstr dflt (lex cls s)
+  parseResult_total cls info hinfo o tznames tzi htz dflt (lex cls s)
 
-/-- **a malformed TZ string in `tzinfos` lets a plain `ValueError` escape** (D-C14-tzinfos-bad-tzstring): `tz.tzstr('5')`
-    raises "unknown string format" inside `_build_tzaware`, which `parse()` does not wrap — although its docstring promises
-    ParserError "if the provided tzinfo is not in a valid format".  So `StringsValid` cannot be dropped from `parse_total`. -/
-theorem parse_bad_tzstring_escapes :
+/-- a malformed TZ string in `tzinfos` is a ParserError (it was a plain `ValueError` before /repo 950345d:
+    `tz.tzstr('5')` raises "unknown string format" inside `_build_tzaware`, which `parse()` did not wrap) -/
+theorem parse_bad_tzstring_is_ParserError :
     parse asciiCls (Info.default false false 2024 2000) {} [] (.mapping [(some ['X'], .str ['5'])])
-      ⟨2003, 9, 25, 0, 0, 0, 0⟩ "10:00 X".toList = .error .ValueError := by decide +kernel
+      ⟨2003, 9, 25, 0, 0, 0, 0⟩ "10:00 X".toList = .error .ParserError := by decide +kernel
+
+/-- the OLD program (before 950345d), stated on the unwrapped cascade: `_build_tzaware` itself raises ValueError there -/
+theorem build_tzaware_bad_tzstring_ValueError :
+    buildTzaware [] (.mapping [(some ['X'], .str ['5'])]) { tzname := some ['X'] } = .error .ValueError := by decide +kernel
 
 /-- … and a TZ string the constructor accepts can still raise when `_assign_tzname` asks for `tzname()`: month 13 in a
-    rule is only looked at by `transitions(year)` (`calendar.IllegalMonthError`, a ValueError) -/
+    rule is only looked at by `transitions(year)` (`calendar.IllegalMonthError`, a ValueError; ParserError after the wrap) -/
 theorem tzstring_query_raises :
     tzstrCtor "EST5EDT,M13.1.0,M11.1.0".toList = .ok () ∧
     strNames "EST5EDT,M13.1.0,M11.1.0".toList ⟨2003, 9, 25, 10, 0, 0, 0⟩ = .error .ValueError := by decide +kernel
+
+/-- a tzinfos callable that itself raises ValueError is reported as ParserError too -/
+theorem parse_raising_callable_is_ParserError :
+    parse asciiCls (Info.default false false 2024 2000) {} [] (.callable [(some ['X'], .raises)] (.data .noneVal))
+      ⟨2003, 9, 25, 0, 0, 0, 0⟩ "10:00 X".toList = .error .ParserError := by decide +kernel
 
 /-- the stock `parserinfo` (tables dumped from /repo on every run) satisfies the hypothesis on `info` -/
 theorem default_info_wf (df yf : Bool) (year century : Int) : (Info.default df yf year century).WF := by
@@ -92,9 +100,9 @@ theorem default_info_wf (df yf : Bool) (year century : Int) : (Info.default df y
 
 /-- `parse_total` for the stock parserinfo: no hypothesis left on `info` -/
 theorem parse_total_default (cls : Char → CClass) (df yf : Bool) (year century : Int) (o : Opts)
-    (tznames : List Token) (tzi : TzInfos) (htz : tzi.NoBad) (hstr : tzi.StringsValid) (dflt : DT) (s : List Char) :
+    (tznames : List Token) (tzi : TzInfos) (htz : tzi.NoBad) (dflt : DT) (s : List Char) :
     Allowed (parse cls (Info.default df yf year century) o tznames tzi dflt s) :=
-  parse_total cls _ (default_info_wf df yf year century) o tznames tzi htz hstr dflt s
+  parse_total cls _ (default_info_wf df yf year century) o tznames tzi htz dflt s
 
 /-- `_parse` itself never raises (what `parse_total` rests on): the scan's IndexError / ValueError /
     InvalidOperation all become the `(None, None)` return -/
@@ -165,12 +173,5 @@ example : (Info.default false true 2024 2000).WF := default_info_wf _ _ _ _
 example : (TzInfos.mapping [(some ['B'], .int (-10800)), (some ['E'], .obj 0), (none, .noneVal), (some ['C'], .str ['X'])]).NoBad := by
   intro p hp; simp at hp; rcases hp with rfl | rfl | rfl | rfl <;> simp
 example : TzInfos.absent.NoBad := trivial
-example : TzInfos.absent.StringsValid := trivial
-example : (TzInfos.mapping [(some ['B'], .int (-10800)), (some ['C'], .str "EST5EDT".toList)]).StringsValid := by
-  intro p hp s hs
-  simp at hp
-  rcases hp with rfl | rfl
-  · simp at hs
-  · simp at hs; subst hs; decide +kernel
 
 end C14
